@@ -4,7 +4,8 @@ PROP = {'modules': ['SfntV.Props.C08'],
  'required_theorems': ['C08_cov_roundtrip', 'C08_cov_len', 'C08_cov_indices', 'C08_cov_minimal',
                        'C08_classdef_roundtrip', 'C08_classdef_len', 'C08_classdef_refusal',
                        'C08_st_roundtrip_gsub1_1', 'C08_st_len_gsub1_1', 'C08_st_roundtrip_gsub1_2',
-                       'C08_st_len_gsub1_2', 'C08_st_roundtrip_gsub2_1_3_1', 'C08_st_len_gsub2_1_3_1'],
+                       'C08_st_len_gsub1_2', 'C08_st_roundtrip_gsub2_1_3_1', 'C08_st_len_gsub2_1_3_1',
+                       'C08_lookuplist_layout'],
  'areas': [('otl', 900, 12000)],
  'rule': 'distinct case lines; non-trivial = coverage/class tables with at least two glyphs/runs, every '
          'lookup-list and every mutated-bytes case',
